@@ -90,6 +90,13 @@ Step ==
                                                         \* uncertain it is the number of live items, otherwise within the uncertainty
                                                         \cup (IF t.sizeerr # "" THEN {}
                                                               ELSE IF t.size >= Cardinality(wlive \ wmaybe) /\ t.size <= Cardinality(wlive \cup wmaybe)
+                                                                   THEN {} ELSE {<<l, "SizeNotSum">>})
+                                                        \* ... also through Get and List with the size option
+                                                        \cup (IF t.gsizeerr # "" THEN {}
+                                                              ELSE IF t.gsize >= Cardinality(wlive \ wmaybe) /\ t.gsize <= Cardinality(wlive \cup wmaybe)
+                                                                   THEN {} ELSE {<<l, "SizeNotSum">>})
+                                                        \cup (IF t.lsizeerr # "" THEN {}
+                                                              ELSE IF t.lsize >= Cardinality(wlive \ wmaybe) /\ t.lsize <= Cardinality(wlive \cup wmaybe)
                                                                    THEN {} ELSE {<<l, "SizeNotSum">>}))
                             /\ UNCHANGED <<cat, mem, maybe, ref, order, descr, wlive, wmaybe>>
        \* a partition-level RPC sent to a node that knows the partition but does not host it must be refused
